@@ -381,7 +381,20 @@ func (fi *FuncInfo) Visit(node ast.Node) ast.Visitor {
 		return nil
 	}
 	fi.visitorStack = append(fi.visitorStack, node)
+	depth := len(fi.visitorStack)
 
+	w := fi.visitNode(node)
+	if w != ast.Visitor(fi) && len(fi.visitorStack) == depth {
+		// ast.Walk calls fi.Visit(nil) after the children of a node only if fi itself was returned for it.
+		// A node whose subtree was analysed here, or is handed to another visitor, is done now: if it stayed
+		// on the stack, later Visit(nil) calls would pop the wrong nodes and stale ancestors would be seen
+		// by the statements that follow (e.g. a continue statement finding a loop that has ended).
+		fi.visitorStack = fi.visitorStack[:depth-1]
+	}
+	return w
+}
+
+func (fi *FuncInfo) visitNode(node ast.Node) ast.Visitor {
 	switch n := node.(type) {
 	case *ast.FuncDecl:
 		// Analyze all the instances of the function declarations
